@@ -30,7 +30,8 @@ class ProbeError(Exception):
 
 EXC = {"ValueError": ValueError, "KeyError": KeyError, "RuntimeError": RuntimeError,
        "ZeroDivisionError": ZeroDivisionError, "ProbeError": ProbeError,
-       "TypeError": TypeError, "OSError": OSError}
+       "TypeError": TypeError, "OSError": OSError, "StopIteration": StopIteration, "AssertionError": AssertionError,
+       "LookupError": LookupError}
 
 
 class Sink:
